@@ -14,7 +14,7 @@
 (***************************************************************************)
 EXTENDS Integers, FiniteSets, Sequences, TLC
 
-CONSTANTS Kids, MaxOwn, ParentWalksChildTls
+CONSTANTS Kids, MaxOwn, MaxDepth, MaxTls, MaxCell, ParentWalksChildTls
 Main == 0
 Thr == {Main} \cup Kids
 
@@ -39,16 +39,16 @@ Collect(t) == /\ Running(t) /\ own[t] > 0
               /\ \E n \in 0..own[t] : own' = [own EXCEPT ![t] = n]
               /\ torn' = (torn \/ (ParentWalksChildTls /\ t = Main /\ \E k \in Kids : life[k] \in {"running", "finished"} /\ tlsn[k][1] > tlsn[k][2]))
               /\ UNCHANGED <<life, depth, tlsn, holder, cell, seen>>
-Try(t) == Running(t) /\ depth[t] < 2 /\ depth' = [depth EXCEPT ![t] = @ + 1] /\ UNCHANGED <<life, own, tlsn, holder, cell, seen, torn>>
+Try(t) == Running(t) /\ depth[t] < MaxDepth /\ depth' = [depth EXCEPT ![t] = @ + 1] /\ UNCHANGED <<life, own, tlsn, holder, cell, seen, torn>>
 Leave(t) == Running(t) /\ depth[t] > 0 /\ depth' = [depth EXCEPT ![t] = @ - 1] /\ UNCHANGED <<life, own, tlsn, holder, cell, seen, torn>>   \* end of try, or throw to the handler
 (* growing the TLS table: Table_Rehash sets nslots, then installs the new array *)
-TlsPublish(t) == Running(t) /\ tlsn[t][1] = tlsn[t][2] /\ tlsn[t][1] < 3 /\ tlsn' = [tlsn EXCEPT ![t] = <<@[1] + 1, @[2]>>]
+TlsPublish(t) == Running(t) /\ tlsn[t][1] = tlsn[t][2] /\ tlsn[t][1] < MaxTls /\ tlsn' = [tlsn EXCEPT ![t] = <<@[1] + 1, @[2]>>]
                  /\ UNCHANGED <<life, own, depth, holder, cell, seen, torn>>
 TlsInstall(t) == Running(t) /\ tlsn[t][1] > tlsn[t][2] /\ tlsn' = [tlsn EXCEPT ![t] = <<@[1], @[1]>>]
                  /\ UNCHANGED <<life, own, depth, holder, cell, seen, torn>>
 Lock(t) == Running(t) /\ holder = -1 /\ holder' = t /\ UNCHANGED <<life, own, depth, tlsn, cell, seen, torn>>          \* lock blocks, trylock fails, while held
 Unlock(t) == holder = t /\ holder' = -1 /\ UNCHANGED <<life, own, depth, tlsn, cell, seen, torn>>
-Write(k) == Running(k) /\ k \in Kids /\ cell[k] < 2 /\ cell' = [cell EXCEPT ![k] = @ + 1] /\ UNCHANGED <<life, own, depth, tlsn, holder, seen, torn>>
+Write(k) == Running(k) /\ k \in Kids /\ cell[k] < MaxCell /\ cell' = [cell EXCEPT ![k] = @ + 1] /\ UNCHANGED <<life, own, depth, tlsn, holder, seen, torn>>
 Finish(k) == /\ Running(k) /\ k \in Kids /\ holder # k /\ depth[k] = 0 /\ tlsn[k][1] = tlsn[k][2]
              /\ life' = [life EXCEPT ![k] = "finished"] /\ own' = [own EXCEPT ![k] = 0]                    \* thread exit tears its collector down
              /\ UNCHANGED <<depth, tlsn, holder, cell, seen, torn>>
